@@ -137,6 +137,32 @@ theorem clear_dest (cfg : Cfg) (dest dmax : Nat) (st : St) (hrw : RW st dest dma
 
 /-! ## `getenv_s` -/
 
+/-- a known object size that contains `dmax ≤ RSIZE_MAX_STR` makes no difference to `strcpy_s` -/
+theorem strcpy_s_bos_irrel (cfg : Cfg) (dest dmax src : Nat) (ib : Bos) (hd : dest ≠ 0) (hpos : 0 < dmax)
+    (hle : dmax ≤ RSIZE_MAX_STR) (hbos : ∀ b, ib = some b → dmax ≤ b) :
+    strcpy_s cfg dest dmax src ib = strcpy_s cfg dest dmax src none := by
+  have hz : dmax ≠ 0 := by omega
+  unfold strcpy_s strcpyG chkDmaxClear chkDmaxClearG
+  rw [if_neg hd, if_neg hz, if_neg hd, if_neg hz]
+  cases ib with
+  | none => rfl
+  | some b =>
+    have h2 : ¬ dmax > b := by have := hbos b rfl; omega
+    have h1 : ¬ dmax > RSIZE_MAX_STR := by omega
+    simp only [h1, h2, if_false]
+
+/-- what the closing `strcpy_s` of getenv_s / strerror_s is told about dest's size (switch `fixInnerBos`) -/
+def innerBos (cfg : Cfg) (destbos : Bos) : Bos := if cfg.fixInnerBos then destbos else none
+
+theorem strcpy_s_innerBos (cfg : Cfg) (dest dmax src : Nat) (destbos : Bos) (hd : dest ≠ 0) (hpos : 0 < dmax)
+    (hle : dmax ≤ RSIZE_MAX_STR) (hbos : ∀ b, destbos = some b → dmax ≤ b) :
+    strcpy_s cfg dest dmax src (innerBos cfg destbos) = strcpy_s cfg dest dmax src none := by
+  unfold innerBos
+  split
+  · exact strcpy_s_bos_irrel cfg dest dmax src destbos hd hpos hle hbos
+  · rfl
+
+
 /-- what `getenv_s` runs once the entry checks on a usable dest have passed -/
 def getenvBody (cfg : Cfg) (hasLen : Bool) (dest dmax name value : Nat) : Prog (Nat × Option Nat) :=
   if name = 0 then do
@@ -156,14 +182,36 @@ def getenvBody (cfg : Cfg) (hasLen : Bool) (dest dmax name value : Nat) : Prog (
         let _ ← strcpy_s cfg dest dmax value none
         pure (EOK, if hasLen then some len1 else none)
 
+/-- `getenvBody` with the closing copy told `ib` about dest's size -/
+def getenvBodyB (cfg : Cfg) (hasLen : Bool) (dest dmax name value : Nat) (ib : Bos) : Prog (Nat × Option Nat) :=
+  if name = 0 then do
+    handleError cfg dest dmax ESNULLP
+    pure (ESNULLP, if hasLen then some 0 else none)
+  else do
+    let _ ← strlenP scanFuel name 0
+    if value = 0 then do
+      (if cfg.slack then memsetP 0 dmax dest else store dest 0)
+      pure (NEG1, if hasLen then some 0 else none)
+    else do
+      let len1 ← strlenP scanFuel value 0
+      if len1 ≥ dmax then do
+        handleError cfg dest dmax ESNOSPC
+        pure (ESNOSPC, if hasLen then some 0 else none)
+      else do
+        let _ ← strcpy_s cfg dest dmax value ib
+        pure (EOK, if hasLen then some len1 else none)
+
+theorem getenvBodyB_none (cfg : Cfg) (hasLen : Bool) (dest dmax name value : Nat) :
+    getenvBodyB cfg hasLen dest dmax name value none = getenvBody cfg hasLen dest dmax name value := rfl
+
 /-- entry checks of `getenv_s` with `dest ≠ NULL`, `0 < dmax`: passed when `dmax ≤ destbos` (object size known;
 NOTE: `dmax` is then not compared with `RSIZE_MAX_STR` at all) resp. `dmax ≤ RSIZE_MAX_STR` (unknown) -/
 theorem getenv_s_enter' (cfg : Cfg) (hasLen : Bool) (dest dmax name : Nat) (destbos : Bos) (value : Nat)
     (hd : dest ≠ 0) (hpos : 0 < dmax) (hnone : destbos = none → dmax ≤ RSIZE_MAX_STR)
     (hbos : ∀ b, destbos = some b → dmax ≤ b) :
-    getenv_s cfg hasLen dest dmax name destbos value = getenvBody cfg hasLen dest dmax name value := by
+    getenv_s cfg hasLen dest dmax name destbos value = getenvBodyB cfg hasLen dest dmax name value (innerBos cfg destbos) := by
   have hz : dmax ≠ 0 := by omega
-  unfold getenv_s getenvBody
+  unfold getenv_s getenvBodyB innerBos
   cases destbos with
   | none =>
     have h1 : ¬ dmax > RSIZE_MAX_STR := by have := hnone rfl; omega
@@ -176,8 +224,10 @@ theorem getenv_s_enter' (cfg : Cfg) (hasLen : Bool) (dest dmax name : Nat) (dest
 
 theorem getenv_s_enter (cfg : Cfg) (hasLen : Bool) (dest dmax name : Nat) (destbos : Bos) (value : Nat)
     (hd : dest ≠ 0) (hpos : 0 < dmax) (hle : dmax ≤ RSIZE_MAX_STR) (hbos : ∀ b, destbos = some b → dmax ≤ b) :
-    getenv_s cfg hasLen dest dmax name destbos value = getenvBody cfg hasLen dest dmax name value :=
-  getenv_s_enter' cfg hasLen dest dmax name destbos value hd hpos (fun _ => hle) hbos
+    getenv_s cfg hasLen dest dmax name destbos value = getenvBody cfg hasLen dest dmax name value := by
+  rw [getenv_s_enter' cfg hasLen dest dmax name destbos value hd hpos (fun _ => hle) hbos]
+  unfold getenvBodyB getenvBody
+  rw [strcpy_s_innerBos cfg dest dmax value destbos hd hpos hle hbos]
 
 /-- **getenv_s, success.**  Usable dest, a readable name, the variable is set to a string of length `n < dmax`
 that does not overlap dest: `EOK`, `*len = n`, no handler event, dest holds the value, its terminator and (null-slack)
@@ -275,11 +325,12 @@ theorem getenv_s_unset (cfg : Cfg) (hasLen : Bool) (dest dmax name : Nat) (destb
   rw [if_neg hname]
   simp only [exec_bind, hr, if_true, he, exec_pure]
 
-/-- **getenv_s with a known object size does not check `dmax ≤ RSIZE_MAX_STR`** (NEW finding): with
+/-- **getenv_s with a known object size does not check `dmax ≤ RSIZE_MAX_STR`** (finding of session 4, repaired by abc5a20:
+the statement is about the tree before it, switch `fixInnerBos` off): with
 `destbos = some b` and `RSIZE_MAX_STR < dmax ≤ b`, a set variable whose value is shorter than `dmax`: `getenv_s`
 returns `EOK` and `*len = n`, but the inner `strcpy_s(dest, dmax, buf)` (object size unknown there) rejects `dmax`:
 the constraint handler IS invoked with `ESLEMAX` and dest is left exactly as it was (not terminated, not cleared). -/
-theorem getenv_s_bos_lemax (cfg : Cfg) (hasLen : Bool) (dest dmax name b value k n : Nat) (st : St)
+theorem getenv_s_bos_lemax (cfg : Cfg) (hfx : cfg.fixInnerBos = false) (hasLen : Bool) (dest dmax name b value k n : Nat) (st : St)
     (hd : dest ≠ 0) (hgt : RSIZE_MAX_STR < dmax) (hb : dmax ≤ b)
     (hname : name ≠ 0) (hnm : SrcStr st name k)
     (hv : value ≠ 0) (hval : SrcStr st value n) (hn : n < dmax) (hfuel : n < scanFuel) :
@@ -289,6 +340,8 @@ theorem getenv_s_bos_lemax (cfg : Cfg) (hasLen : Bool) (dest dmax name b value k
   have hpos : 0 < dmax := by omega
   rw [getenv_s_enter' cfg hasLen dest dmax name (some b) value hd hpos (fun h => by cases h)
     (fun b' h => by cases h; exact hb)]
+  have hib : innerBos cfg (some b) = none := by simp [innerBos, hfx]
+  rw [hib, getenvBodyB_none]
   unfold getenvBody
   obtain ⟨r, hr, _⟩ := strlen_ok' name k st hnm
   have hl := strlen_ok value n st hval hfuel
@@ -340,8 +393,10 @@ theorem strerror_s_enter (cfg : Cfg) (dest dmax errnum : Nat) (destbos : Bos) (m
     strerror_s cfg dest dmax errnum destbos msg dots = strerrorBody cfg dest dmax errnum msg dots := by
   have hz : dmax ≠ 0 := by omega
   have h1 : ¬ dmax > RSIZE_MAX_STR := by omega
+  have hi := strcpy_s_innerBos cfg dest dmax msg destbos hd hpos hle hbos
+  unfold innerBos at hi
   unfold strerror_s strerrorBody chkDmax
-  rw [if_neg hd, if_neg hz]
+  rw [if_neg hd, if_neg hz, hi]
   cases destbos with
   | none => simp only [h1, if_false]
   | some b =>
